@@ -318,6 +318,7 @@ func (cur *crsr) WaitNewData(ctx context.Context) error {
 	ctx2, cancel := context.WithCancel(ctx)
 	for _, it := range cur.jDescs {
 		go func(jrnl journal.Journal, pos journal.Pos) {
+			verifHook("wait-new-data", jrnl.Name())
 			jrnl.Chunks().WaitForNewData(ctx2, pos)
 			cancel()
 		}(it.j, it.it.Pos())
